@@ -67,6 +67,8 @@ def project_pkg(kind, data, plain, null):
     doc = main if kind in ("epub", "odt") else byname.get("text.markdown")
     if doc is not None:
         r["rawrefs"] = sorted({n for n in ("small.png", "big.png", "huge.png", "style.css") if re.search(rb'(?<![\w/])' + re.escape(n.encode()), doc)})
+    adir = {"epub": "OEBPS/assets/", "odt": "Pictures/", "bundlezip": "assets/"}.get(kind)
+    r["nassets"] = len([m for m in mem if adir and m["name"].startswith(adir) and len(m["name"]) > len(adir)]); r["nreadable"] = 0
     if main is not None and plain is not None and kind in ("epub", "odt"):
         mask = lambda b: re.sub(rb'(src|href)="[^"]*"', rb'\1="URL"', b).strip()
         r["hasplain"] = True; r["main"] = project.fnv(mask(main)); r["plain"] = project.fnv(mask(plain))
@@ -82,6 +84,8 @@ def run(tier, seed):
     if tier == "quick": srcs = [s for i, s in enumerate(srcs) if i % 3 == 0 or "huge" in s or "{=html}" in s]
     # sources of a few bytes: the archive writer stores members of up to three bytes without compressing them, and must say so in their headers
     srcs += ["a\n", "a", "ab\n", "abc", "abcd\n", "\n"]
+    # pictures that cannot be read before, between and after pictures that can
+    srcs += ["![m](nofile.png) then ![a](small.png) and ![b](big.png)\n\nend\n", "![a](small.png) ![m](nofile.png) ![m2](nofile2.png) ![b](huge.png)\n\nend\n"]
     # an asset's address as the very last bytes of the source (no final newline): the text the bundle carries must be rewritten there too
     srcs += ["# One\n\n![alt][pic]\n\n[pic]: small.png", "text\n\n![alt](small.png)", "Title: T\ncss: style.css\n\ntext ![a](big.png) and ![b][r]\n\n[r]: small.png"]
     exe = build.build_harness("asan"); cli = build.build_cli()
@@ -120,6 +124,7 @@ def run(tier, seed):
                     ev2 = project_pkg(f, data, plain.get("html" if f == "epub" else "fodt") if n[f] == 1 else None, e["null"])
                     ev2["src"] = srcs[si * per + int(sid[1:])]; ev2["dir"] = n[f] == 1; ev2["via"] = "api"
                     ev2["readable"] = ev2["dir"] and "nofile" not in ev2["src"]
+                    ev2["nreadable"] = len({n_ for n_ in ("small.png", "big.png", "huge.png") if n_ in ev2["src"]}) if ev2["dir"] else 0
                     trace.append(ev2)
         # the command line, -o
         csel = srcs[:: (4 if tier == "quick" else 1)]
@@ -164,7 +169,7 @@ def run(tier, seed):
         for src, outs in zip(csel, couts):
             trace.append(dict(e="reset"))
             for kind, data, rc, plain in outs:
-                ev2 = project_pkg(kind, data, plain, data is None or rc != 0); ev2["src"] = src; ev2["dir"] = True; ev2["via"] = "cli"; ev2["readable"] = "nofile" not in src
+                ev2 = project_pkg(kind, data, plain, data is None or rc != 0); ev2["src"] = src; ev2["dir"] = True; ev2["via"] = "cli"; ev2["readable"] = "nofile" not in src; ev2["nreadable"] = len({n_ for n_ in ("small.png", "big.png", "huge.png") if n_ in src})
                 trace.append(ev2)
         acc, rejected, states, info = tlc.validate_trace("Package", os.path.join(VERIF, "spec", "Package.cfg"), trace, max_rejects=40, timeout=1500, independent=True)
     finally:
